@@ -455,6 +455,16 @@ def execute(plan, ctx):
                               f'simulation {s}: noise with channel/trial covariance is not the i.i.d. noise term times the Cholesky factors')
                 return
     ctx.probe('additivity_replayed')
+    # ---- clause 2 again, after the later simulations with other noise settings: each dataset still carries *its own*
+    # parameters (a descriptor dict shared between calls would now show the last call's)
+    for s, d in enumerate(ds):
+        des = d.descriptors
+        if not (des.get('signal') == plan['signal'] and des.get('noise') == plan['noise'] and des.get('model') == m.name):
+            ctx.violation('sim_ref.clause2', 'make_dataset:descriptors-changed-later',
+                          f'dataset {s} of the first simulation reported signal/noise/model {plan["signal"]}/{plan["noise"]}/{m.name} '
+                          f'right after the call; after later simulations it reports {des.get("signal")}/{des.get("noise")}/{des.get("model")}')
+            return
+    ctx.probe('descriptors_rechecked')
     rank = int(np.linalg.matrix_rank(pred)) if nc > 1 else 0
     ctx.behaviour(plan['kind'], 'rank%d/%d' % (rank, nc), plan['design'], plan['n_part'], n_sim, n_ch - nc,
                   plan['use_exact_signal'], plan['use_same_signal'], plan['signal'], plan['noise'], plan['noise_cov'])
